@@ -50,22 +50,31 @@ def oracle(ctx, sc, recs, desc):
                 elif not F.is_failure(r['ret']):
                     F.violate(ctx, f'{name} does not return a failure value although the object is blocked', where,
                                 repr(r['ret']), 'False / None / (None, None)', key=f'C04:{name}:no-failure-value')
-        # write granularity: the port records, at every write, whether an error was already recorded (or the port
-        # already dropped) at that moment - also in the middle of a multi-command method
+        # write / assignment granularity: the port records at every write whether an error is set - or was EVER
+        # recorded - at that moment, and every assignment to `err` is logged (an error recorded and erased again
+        # between two port operations never shows at I/O time)
+        for ev in r['events']:
+            if ev[0] == 'e' and ev[1] is not None and ev[2] != ev[1]:
+                nontrivial = True
+                F.violate(ctx, f'{name} ' + ('erases' if ev[2] is None else 'replaces') + ' the recorded error', where,
+                          {'before': ev[1], 'assigned': ev[2]}, 'the first message is kept',
+                          key=f'C04:{name}:message-replaced')
+                break
         if name != 'connect':
             for ev in r['events']:
-                if ev[0] == 'w' and (ev[3] or ev[4]):
+                if ev[0] == 'w' and (ev[3] or ev[4] or ev[6]):
                     nontrivial = True
-                    F.violate(ctx, f'{name} transmits after an error was recorded (within the call)' if ev[3]
-                              else f'{name} transmits on a port that was already dropped', where,
-                              {'written_after_error': ev[1], 'all_written': r['written'], 'err': r['err']},
+                    F.violate(ctx, f'{name} transmits after an error was recorded' + ('' if ev[3] else ' (and erased again)')
+                              if (ev[3] or ev[6]) else f'{name} transmits on a port that was already dropped', where,
+                              {'written_after_error': ev[1], 'all_written': r['written'], 'err_now': r['err'],
+                               'first_recorded': r['ever_err']},
                               'no bytes written once an error is recorded', key=f'C04:{name}:writes-after-error')
                     break
         if latched is not None and r['err'] != latched:
             F.violate(ctx, f'{name} replaces the recorded error', where, {'before': latched, 'after': r['err']},
                         'the first message is kept', key=f'C04:{name}:message-replaced')
-        if latched is None and r['err'] is not None:
-            latched = r['err']
+        if latched is None and (r['err'] is not None or r['ever_err'] is not None):
+            latched = r['err'] if r['err'] is not None else r['ever_err']     # recorded during the call (even if erased)
             nontrivial = True
         port = r['port']
     first = recs[0] if recs else None
@@ -117,6 +126,7 @@ def run(ctx):
     n += F.run_scenarios(ctx, F.fault_scenarios(), oracle, 'C04', c04_ignore)
     n += F.run_scenarios(ctx, F.pair_scenarios(), oracle, 'C04', c04_ignore)
     n += F.run_scenarios(ctx, F.connect_scenarios(), oracle, 'C04', c04_ignore)
+    n += F.run_scenarios(ctx, F.two_object_scenarios(), oracle, 'C04', c04_ignore)
     n += F.run_scenarios(ctx, F.random_scenarios(rng, ctx.n(5000)), oracle, 'C04', c04_ignore)
     ctx.notes.append(f'{len(pub)} public methods by reflection: ' + ' '.join(pub))
     ctx.notes.append('modelled only as far as connect() needs them (never touch the port): find_first (result of the '
